@@ -826,9 +826,23 @@ def presented_secrets(req):
     return res
 
 
+def effective_route(req):
+    """the route the request is addressed to by its method and path (the generator's path/method mutations can turn
+    it into a request for another route, or for none): None when the monitor should not judge its secrets"""
+    pm, route = req["pm"], req["route"]
+    if pm in ("ok", "si-noncanon", "shnum-zeros"):
+        return route
+    if pm == "head":
+        if METHOD[route] == "GET":
+            return route                 # werkzeug adds HEAD to every GET rule
+        if route == "write":
+            return "readImm"             # HEAD /immutable/<si>/<n> is the (secret-less) read route, not the PATCH route
+    return None
+
+
 def clearly_bad_secrets(req):
     """the statement's 'missing or malformed secrets', unambiguous cases only (see ASSUMPTIONS)"""
-    required = [SECRET_NAMES[k] for k in REQUIRED[req["route"]]]
+    required = [SECRET_NAMES[k] for k in REQUIRED[effective_route(req)]]
     seen = set()
     bad = False
     for x in req["xauth"]:
@@ -909,14 +923,14 @@ def run_history(ctx, hist_id, w_swissnum, reqs, monitor_world=None):
                     ctx.violation("a request without the swissnum was answered %d" % code, sub,
                                   "noswissnum-status-%s-%s" % (req["route"], req["sw"]))
             else:
-                why = clearly_bad_secrets(req) if req["pm"] in ("ok", "head", "si-noncanon", "shnum-zeros") else None
+                why = clearly_bad_secrets(req) if effective_route(req) is not None else None
                 if why is not None:
                     if before_raw != after_raw:
                         ctx.violation("a request with %s secrets changed server state" % why, sub,
-                                      "badsecrets-state-change-%s-%s" % (req["route"], why))
+                                      "badsecrets-state-change-%s-%s" % (effective_route(req), why))
                     if code < 400:
                         ctx.violation("a request with %s secrets was answered %d" % (why, code), sub,
-                                      "badsecrets-accepted-%s-%s" % (req["route"], why))
+                                      "badsecrets-accepted-%s-%s" % (effective_route(req), why))
             if req["route"] in ("write", "abort") and req["pm"] in ("ok", "si-noncanon", "shnum-zeros"):
                 # the statement: a write to / abort of an in-progress upload requires THAT upload's secret
                 tkey = (req["si"], req["n"])
